@@ -25,6 +25,11 @@ pub struct Spec {
     pub want_listing: bool,
     /// fork a pristine process per execution (and per Restart segment)
     pub isolate: bool,
+    /// a discrepancy of an owned class counts only if this holds for (pre-state model, history)
+    pub owns_if: Option<Box<dyn Fn(&Model, &[Op]) -> bool + Send + Sync>>,
+    /// differential mode: every history is also executed under this configuration and the
+    /// API-level observations must be identical (class "backend.diff")
+    pub diff_cfg: Option<Box<dyn Fn(&Config) -> Config + Send + Sync>>,
 }
 
 #[derive(Clone)]
@@ -65,6 +70,14 @@ pub struct Violation {
     pub status: String,
 }
 
+fn owned(spec: &Spec, pre: &Model, ops: &[Op], x: &Discrepancy) -> bool {
+    (spec.owned.contains(&x.class) && spec.owns_if.as_ref().map(|f| f(pre, ops)).unwrap_or(true)) || x.class == "backend.diff"
+}
+
+fn is_core(class: &str) -> bool {
+    matches!(class, "read.order" | "read.empty" | "read.err" | "read.panic")
+}
+
 fn hash_obs(obs: &[Obs]) -> u64 {
     let s = serde_json::to_string(obs).unwrap_or_default();
     fnv64(s.as_bytes())
@@ -90,6 +103,34 @@ pub fn write_replay(v: &Violation) -> String {
     let path = format!("{}/{:016x}.json", dir, h);
     let _ = std::fs::write(&path, text);
     path
+}
+
+/// API-level comparison of two executions of the same history (results and counts;
+/// clean flags are excluded because the marker persister is free-running).
+pub fn diff_obs(a: &JobResult, b: &JobResult) -> Option<String> {
+    if a.status != b.status {
+        return Some(format!("process status differs: {} vs {}", a.status, b.status));
+    }
+    for (i, (x, y)) in a.obs.iter().zip(b.obs.iter()).enumerate() {
+        if x.res != y.res {
+            return Some(format!("op #{}: {:?} vs {:?}", i, brief(&x.res), brief(&y.res)));
+        }
+        if x.counts != y.counts {
+            return Some(format!("op #{}: counts {:?} vs {:?}", i, x.counts, y.counts));
+        }
+    }
+    if a.obs.len() != b.obs.len() {
+        return Some(format!("{} vs {} observations", a.obs.len(), b.obs.len()));
+    }
+    None
+}
+
+fn brief(r: &Res) -> String {
+    match r {
+        Res::Many(v) => format!("Many(lens {:?})", v.iter().take(16).map(|e| e.len).collect::<Vec<_>>()),
+        Res::One(e) => format!("One(len {})", e.len),
+        other => format!("{:?}", other),
+    }
 }
 
 pub struct Outcome {
@@ -149,15 +190,16 @@ pub fn explore(pool: &Pool, spec: &Spec, kf: &Known) -> Outcome {
                 bad = Some(Discrepancy { class: "crash", detail: format!("child {} in root", res.status) });
             } else {
                 for (op, ob) in job.ops.iter().zip(res.obs.iter()) {
+                    let pre = model.clone();
                     let ds = model.step(op, ob);
-                    if let Some(x) = ds.into_iter().find(|x| spec.owned.contains(&x.class)) {
+                    if let Some(x) = ds.into_iter().find(|x| owned(spec, &pre, &job.ops, x)) {
                         bad = Some(x);
                         break;
                     }
                 }
                 if bad.is_none() {
                     if let Some(ex) = &spec.extra {
-                        bad = ex(&model, &job.ops, res).into_iter().find(|x| spec.owned.contains(&x.class));
+                        bad = ex(&model, &job.ops, res).into_iter().find(|x| owned(spec, &model, &job.ops, x));
                     }
                 }
             }
@@ -213,7 +255,20 @@ pub fn explore(pool: &Pool, spec: &Spec, kf: &Known) -> Outcome {
                     });
                 }
                 let results = pool.run(jobs.clone());
-                for (((ni, op), job), res) in pending[pos..end].iter().zip(jobs.iter()).zip(results.iter()) {
+                let results2: Option<Vec<JobResult>> = spec.diff_cfg.as_ref().map(|f| {
+                    let jobs2: Vec<Job> = jobs
+                        .iter()
+                        .map(|j| {
+                            let mut j2 = j.clone();
+                            j2.cfg = f(&j.cfg);
+                            j2
+                        })
+                        .collect();
+                    pool.run(jobs2)
+                });
+                for (ri, (((ni, op), job), res)) in
+                    pending[pos..end].iter().zip(jobs.iter()).zip(results.iter()).enumerate()
+                {
                     stats.transitions += 1;
                     cfg_trans += 1;
                     let node = &frontier[*ni];
@@ -252,7 +307,19 @@ pub fn explore(pool: &Pool, spec: &Spec, kf: &Known) -> Outcome {
                         if let Some(ex) = &spec.extra {
                             all_ds.extend(ex(&model, &job.ops, res));
                         }
-                        bad = all_ds.iter().find(|x| spec.owned.contains(&x.class)).cloned();
+                        if let Some(r2) = results2.as_ref().map(|v| &v[ri]) {
+                            if let Some(msg) = diff_obs(res, r2) {
+                                all_ds.push(Discrepancy { class: "backend.diff", detail: msg });
+                            }
+                        }
+                        // a core FIFO discrepancy that this check does not own makes every
+                        // other observation of the step unreliable: the branch is foreign
+                        let foreign_core = all_ds.iter().any(|x| is_core(x.class) && !spec.owned.contains(&x.class));
+                        if !foreign_core {
+                            bad = all_ds.iter().find(|x| owned(spec, &node.model, &job.ops, x)).cloned();
+                        } else {
+                            model.broken = true;
+                        }
                     }
                     if let Some(x) = bad {
                         handle_bad(pool, spec, kf, cfg, job, res, &node.model, x, &mut stats, &mut violations, &mut known_lines);
@@ -268,7 +335,11 @@ pub fn explore(pool: &Pool, spec: &Spec, kf: &Known) -> Outcome {
                     for x in all_ds.iter() {
                         *stats.foreign_classes.entry(x.class.to_string()).or_insert(0) += 1;
                     }
-                    let key = (fnv64(res.digest.clone().unwrap_or_default().as_bytes()), fnv64(model.key().as_bytes()));
+                    let mut dg = res.digest.clone().unwrap_or_default();
+                    if let Some(r2) = results2.as_ref().map(|v| &v[ri]) {
+                        dg.push_str(&r2.digest.clone().unwrap_or_default());
+                    }
+                    let key = (fnv64(dg.as_bytes()), fnv64(model.key().as_bytes()));
                     if !spec.dedup || seen.insert(key) {
                         stats.states += 1;
                         cfg_states += 1;
